@@ -133,6 +133,25 @@ impl CdnClient {
         })
     }
 
+    /// CDN objects live under `{hex[0..2]}/{hex[2..4]}/{hex}`: a key needs at least two bytes
+    /// (four hex digits) for the two directory levels.
+    fn check_key(key: &[u8]) -> Result<()> {
+        if key.len() < 2 {
+            return Err(ProtocolError::InvalidKey);
+        }
+        Ok(())
+    }
+
+    /// Archive keys are hex hashes taken from CDN configs; anything else (too short for the
+    /// two directory levels, path separators, non-ASCII) is rejected before it is sliced
+    /// into a URL and a cache path.
+    fn check_archive_key(archive_key: &str) -> Result<()> {
+        if archive_key.len() < 4 || !archive_key.bytes().all(|b| b.is_ascii_hexdigit()) {
+            return Err(ProtocolError::InvalidKey);
+        }
+        Ok(())
+    }
+
     /// Build CDN URL from injected endpoint configuration
     fn build_url(endpoint: &CdnEndpoint, content_type: ContentType, key: &[u8]) -> String {
         let hex_key = hex::encode(key);
@@ -164,6 +183,7 @@ impl CdnClient {
         content_type: ContentType,
         key: &[u8],
     ) -> Result<Vec<u8>> {
+        Self::check_key(key)?;
         let hex_key = hex::encode(key);
 
         // Use full CDN path structure for cache key to match actual CDN organization
@@ -224,6 +244,7 @@ impl CdnClient {
         key: &[u8],
         resume_from: Option<u64>,
     ) -> Result<Vec<u8>> {
+        Self::check_key(key)?;
         let url = Self::build_url(endpoint, content_type, key);
 
         // If no resume point, use regular download
@@ -278,6 +299,7 @@ impl CdnClient {
         offset: u64,
         length: u64,
     ) -> Result<Vec<u8>> {
+        Self::check_key(key)?;
         let url = Self::build_url(endpoint, content_type, key);
 
         let response = self
@@ -311,6 +333,7 @@ impl CdnClient {
     where
         F: FnMut(u64, u64) + Send,
     {
+        Self::check_key(key)?;
         let url = Self::build_url(endpoint, content_type, key);
 
         let response = self.http_client.inner().get(&url).send().await?;
@@ -351,6 +374,7 @@ impl CdnClient {
     where
         F: FnMut(u64, u64) + Send,
     {
+        Self::check_key(key)?;
         let url = Self::build_url(endpoint, content_type, key);
 
         let response = self.http_client.inner().get(&url).send().await?;
@@ -375,6 +399,8 @@ impl CdnClient {
         endpoint: &CdnEndpoint,
         archive_key: &str,
     ) -> Result<Vec<u8>> {
+        Self::check_archive_key(archive_key)?;
+
         // Build cache key for index file
         // Always use path field for ALL game content
         let cache_key = format!(
@@ -426,6 +452,7 @@ impl CdnClient {
         content_type: ContentType,
         key: &[u8],
     ) -> Result<Option<u64>> {
+        Self::check_key(key)?;
         let url = Self::build_url(endpoint, content_type, key);
 
         let response = self.http_client.inner().head(&url).send().await?;
@@ -454,6 +481,7 @@ impl CdnClient {
         endpoint: &CdnEndpoint,
         archive_key: &str,
     ) -> Result<Option<u64>> {
+        Self::check_archive_key(archive_key)?;
         let scheme = endpoint.scheme.as_deref().unwrap_or("https");
         let base_path = normalize_cdn_path(&endpoint.path);
         let url = format!(
